@@ -81,7 +81,6 @@ def p_sorted(seq, key=None, reverse=False):
 def p_map(f, seq): return [f(x) for x in seq]
 def p_filter(f, seq): return [x for x in seq if f(x)]
 def p_zip(*seqs):
-    if len(set(len(s) for s in seqs)) > 1: raise ValueError("asp zip needs equal lengths")
     return [list(t) for t in zip(*seqs)]
 def p_enumerate(seq): return [[i, x] for i, x in enumerate(seq)]
 def p_reduce(f, seq, initializer=None):
